@@ -3,6 +3,8 @@ SPECIFICATION Spec
 CONSTANTS
   ChSC <- Ch_U
   ChCS <- Ch_U
+  SeqBase = 0
+  MidBase = 0
   Budget = 60000
   Workload <- WL_U_sliced_small
   MaxFlushS = 0
